@@ -432,6 +432,47 @@ func ruleR041(c *Ctx) {
 						}
 					}
 				}
+				// form D: the loop condition requires the scanned rune to differ from the sentinel, and the rune variable is
+				// read again (from an advancing read) inside the loop: `c := t.next(); for c != 0 && valid(c) { …; c = t.next() }`
+				if loop.Cond != nil && !exitOK {
+					var conj []ast.Expr
+					conjuncts(loop.Cond, &conj)
+					for _, cj := range conj {
+						v, eq, ok := runeConstTest(info, cj)
+						if !ok || eq || !constant.Compare(v, token.EQL, sentinel) {
+							continue
+						}
+						be := ast.Unparen(cj).(*ast.BinaryExpr)
+						var vid *ast.Ident
+						for _, side := range []ast.Expr{be.X, be.Y} {
+							if id, ok := ast.Unparen(side).(*ast.Ident); ok && info.Types[side].Value == nil {
+								vid = id
+							}
+						}
+						if vid == nil {
+							continue
+						}
+						obj := info.ObjectOf(vid)
+						reread := containsNode(loop.Body, func(x ast.Node) bool {
+							as, ok := x.(*ast.AssignStmt)
+							if !ok || len(as.Lhs) != 1 || len(as.Rhs) != 1 {
+								return false
+							}
+							lid, ok := ast.Unparen(as.Lhs[0]).(*ast.Ident)
+							return ok && info.ObjectOf(lid) == obj && containsNode(as.Rhs[0], func(y ast.Node) bool { return w.advance(y) })
+						})
+						if loop.Post != nil && !reread {
+							if as, ok := loop.Post.(*ast.AssignStmt); ok && len(as.Lhs) == 1 && len(as.Rhs) == 1 {
+								if lid, ok := ast.Unparen(as.Lhs[0]).(*ast.Ident); ok && info.ObjectOf(lid) == obj && containsNode(as.Rhs[0], func(y ast.Node) bool { return w.advance(y) }) {
+									reread = true
+								}
+							}
+						}
+						if reread {
+							exitOK, how = true, "the loop condition requires the scanned rune to differ from the end-of-input sentinel ("+nodeStr(c.Fset, cj)+"), and the rune is read again in every iteration"
+						}
+					}
+				}
 				// form A: an emptiness test len(t.str)==0 whose true edge leaves the loop, on every path that shortens str
 				// form B: comparison of the scanned rune with the sentinel, with an exit on that outcome
 				ast.Inspect(loop.Body, func(x ast.Node) bool {
